@@ -176,6 +176,39 @@ def confined_root_obligations(ctx, rep, rule):
     if not n:
         rep.ok(rule, "no start-up function rewrites the document root", "pygopherd/initialization.py", "", key=f"{rule}|none", nontrivial=False)
 
+
+def bind_obligations(ctx, rep, rule):
+    """"The listening socket is bound before any privilege is given up" rests on socketserver binding in the constructor: the server
+    classes must let a failed bind propagate out of server_bind() (so the constructor fails and start-up aborts) and must not bind
+    anywhere else (a bind retried from serve_forever() happens after the privilege drop)."""
+    prog = ctx.prog
+    bs = ctx.cls("server.BaseServer")
+    classes = [bs] + list(prog.subclasses(bs, strict=True)) if bs else []
+    problems, n = [], 0
+    for C in classes:
+        for m in C.methods.values():
+            for call in [x for x in ast.walk(m.node) if isinstance(x, ast.Call) and isinstance(x.func, ast.Attribute)]:
+                attr = call.func.attr
+                recv = norm(call.func.value)
+                is_bind = attr in ("server_bind", "bind") and (recv.startswith("super(") or recv in ("self", "self.socket") or "socketserver." in recv)
+                if not is_bind:
+                    continue
+                n += 1
+                if m.name != "server_bind":
+                    problems.append((m, call, f"`{norm(call)[:40]}` in {m.qualname}: the socket is (re)bound outside the constructor's server_bind() - after "
+                                     "start-up has gone on to drop privileges"))
+                    continue
+                for tr in enclosing_tries(m.node, call):
+                    for h in tr.handlers:
+                        if handler_completes(Walker(prog, ctx.resolver), m, h, C):
+                            problems.append((m, call, f"`except {norm(h.type) if h.type is not None else ''}` (line {h.lineno}) around the bind can complete: the "
+                                             "constructor returns an unbound server, start-up goes on and drops privileges before any bind"))
+    if not n:
+        rep.ok(rule, "the server classes leave binding to socketserver's constructor", "pygopherd/server.py", "", key=f"{rule}|none", nontrivial=False)
+        return
+    rep.add(rule, f"server classes: bind only in server_bind(), failures propagate [{n} bind sites]", not problems,
+            ctx.where(problems[0][0], problems[0][1]) if problems else "pygopherd/server.py", "; ".join(p[2] for p in problems[:2]), key=f"{rule}|bind")
+
 from .c20 import with_swallows
 
 
@@ -187,6 +220,9 @@ def check(ctx, rep):
     rep.rule("R19b", "all feasible paths of the privilege dropper: chroot < root:='/' & chdir into root < "
              "setgroups(()) < set*gid < set*uid; complete drops only; configured option => drop performed", floor=4)
     rep.rule("R19c", "no privileged call, bind or key load inside a try/suppress whose handler can complete normally", floor=3)
+    rep.rule("R19e", "a failed bind aborts start-up and there is no later bind: server_bind() of the server classes lets errors propagate, "
+             "nothing else binds the listening socket", floor=1)
+    bind_obligations(ctx, rep, "R19e")
     rep.rule("R19d", "= R01n: the document root is rewritten to '/' only on paths on which chroot has succeeded (chroot made to fail at every "
              "call site, surviving paths followed)", floor=1)
     confined_root_obligations(ctx, rep, "R19d")
